@@ -83,10 +83,31 @@ def c_bm_extend(eng, st, fr, f, args, site):
     vw = view(eng, st, args[1])
     if not isinstance(r, Ref) or vw is None:
         return None
+    if fixed_put(eng, st, r, vw["len"], site, "put_slice"):
+        return [(st, UNIT)]
     segs = slice_segments(eng, st, vw)
     if not append(eng, st, r, segs, vw["len"]):
         return None
     return [(st, UNIT)]
+
+
+def fixed_put(eng, st, r, n, site, what):
+    """BufMut on a fixed-size `&mut [u8]` cursor: writing panics unless `remaining >= n`; the cursor advances."""
+    cur = eng.M.read_path(st, r.loc, r.path)
+    if isinstance(cur, Ref):
+        r = cur
+        cur = eng.M.read_path(st, r.loc, r.path)
+    if not isinstance(cur, Slice):
+        return False
+    desc = "%s(%s) on a fixed-size buffer" % (what, eng.describe_operand(site["fr"], site["term"]["args"][0]))
+    ok = st.holds(cur.len.sub(n), eng)
+    eng.obligation(site["fr"], site["blk"], "BufMut", desc, ok, need="%s >= %s" % (cur.len, n), st=st, reason="remaining capacity covers the write by guard facts")
+    try:
+        st.add_fact(cur.len.sub(n), eng)
+    except Dead:
+        pass
+    eng.M.write_path(st, r.loc, r.path, Slice(cur.base, cur.off.add(n), cur.len.sub(n), cur.elem))
+    return True
 
 
 @contract(r"^(<bytes::BytesMut as )?bytes::(buf::)?BufMut(>)?::put_" + NUMRE + r"(_le|_ne)?$")
@@ -97,6 +118,8 @@ def c_bm_put_num(eng, st, fr, f, args, site):
     r = args[0]
     if not isinstance(r, Ref):
         return None
+    if fixed_put(eng, st, r, Lin.const(w), site, "put_" + m.group(1)):
+        return [(st, UNIT)]
     desc = eng.describe_operand(site["fr"], site["term"]["args"][1])
     if not append(eng, st, r, (("num", w, order, args[1], desc),), Lin.const(w)):
         return None
